@@ -24,7 +24,7 @@ def mk_writer(env, N, tag="w"):
     return w, sink, off
 
 
-def mk_reader(env, N, payload, n, mode, tag="r", trail=2, cut=None):
+def mk_reader(env, N, payload, n, mode, tag="r", trail=2, cut=None, trail_exact=False):
     """CodedInputStream reached through the public API only: a fresh stream over
     [p junk bytes][payload (n bytes)][t trailing junk bytes]; the p junk bytes are consumed with
     read_view(p) so the payload starts at an arbitrary buffer offset; refills follow `mode`."""
@@ -34,7 +34,7 @@ def mk_reader(env, N, payload, n, mode, tag="r", trail=2, cut=None):
     data.append(payload, n)
     t = 0
     if trail:
-        t = env.int(tag + ".t", 0, trail)
+        t = trail if trail_exact else env.int(tag + ".t", 0, trail)
         data.append(env.bytes(tag + ".post", trail), t)
     total = None
     if cut is not None:
@@ -213,6 +213,12 @@ def mk_ser(env, t, cache):
         return B.MapSerializer(mk_ser(env, t[1], cache), mk_ser(env, t[2], cache))
     if k == "stream":
         return B.StreamSerializer(mk_ser(env, t[1], cache))
+    if k == "fixedarray":      # ["fixedarray", elem, [d0, d1, ...]]
+        return B.FixedNDArraySerializer(mk_ser(env, t[1], cache), tuple(t[2]))
+    if k == "ndarray":         # ["ndarray", elem, ndims, [possible dimension lengths]]
+        return B.NDArraySerializer(mk_ser(env, t[1], cache), t[2])
+    if k == "dynarray":        # ["dynarray", elem, [possible numbers of dimensions], [possible dimension lengths]]
+        return B.DynamicNDArraySerializer(mk_ser(env, t[1], cache))
     if k == "union":
         cases = t[1]
         nn = [c for c in cases if c is not None]
@@ -251,6 +257,47 @@ def mk_ser(env, t, cache):
 
 
 STRINGS = ["", "a", "hé€", "0123456789abcdefXYZ"]  # empty, ascii, multi-byte UTF-8, longer than N=16
+ELEM_SIZE = {"int8": 1, "uint8": 1, "f32": 4, "f64": 8, "c32": 8, "c64": 16}   # trivially serializable element types
+ELEM_DTYPE = {"int8": "int8", "uint8": "uint8", "f32": "float32", "f64": "float64", "c32": "complex64", "c64": "complex128"}
+
+
+class ArrVal:
+    """harness-side description of an array of a trivially serializable element type whose memory image
+    is `data` (symbolic bytes): what the writer put on the wire, to be compared with what a reader returns"""
+
+    def __init__(self, elem, shape, data):
+        self.elem, self.shape, self.data = elem, tuple(shape), data
+
+
+def arr_bytes(env, a, n):
+    """current memory image of an array returned by the code under test (SymNDArray window / numpy array)"""
+    if hasattr(a, "byte_term"):
+        return [env.buf_byte(a, i) for i in range(n)]
+    return list(a.tobytes())
+
+
+def shares_reader_buffer(env, v, r):
+    """does a value returned by a serializer share memory with the CodedInputStream's internal buffer?
+    (structural: symbolic windows record their backing object; natively numpy / memoryview tell)"""
+    import numpy as np
+    if isinstance(v, (list, tuple)):
+        return any(shares_reader_buffer(env, x, r) for x in v)
+    if isinstance(v, dict):
+        return any(shares_reader_buffer(env, x, r) for kv in v.items() for x in kv)
+    if isinstance(v, env.T.UnionCase):
+        return shares_reader_buffer(env, v.value, r)
+    # (an empty window shares no byte with anything: numpy.shares_memory says so too)
+    if hasattr(v, "live_buffer"):            # SymNDArray
+        return v.nbytes > 0 and v.live_buffer() is r._buffer
+    if hasattr(v, "live") and hasattr(v, "byte_term"):   # SymSeq: live view of a SymBuf, or a frozen copy
+        return v.live is r._buffer and bool(v.ln > 0)
+    if v is r._buffer:
+        return True
+    if isinstance(v, np.ndarray):
+        return bool(np.shares_memory(v, np.frombuffer(r._buffer, dtype=np.uint8)))
+    if isinstance(v, memoryview):
+        return v.obj is r._buffer and len(v) > 0
+    return False
 
 
 def gen(env, t, name, maxlen, cache):
@@ -300,6 +347,18 @@ def gen(env, t, name, maxlen, cache):
     if k == "fixedvector":
         items = [gen(env, t[1], "%s.%d" % (name, i), maxlen, cache) for i in range(t[2])]
         return [v for v, _ in items], AND(*[c for _, c in items]) if items else True
+    if k in ("fixedarray", "ndarray", "dynarray"):
+        if k == "fixedarray":
+            shape = tuple(t[2])
+        elif k == "ndarray":
+            shape = tuple(t[3][env.choice("%s.dim%d" % (name, i), len(t[3]))] for i in range(t[2]))
+        else:
+            nd = t[2][env.choice(name + ".ndims", len(t[2]))]
+            shape = tuple(t[3][env.choice("%s.dim%d" % (name, i), len(t[3]))] for i in range(nd))
+        n = ELEM_SIZE[t[1][0]]
+        for d in shape:
+            n *= d
+        return ArrVal(t[1][0], shape, env.bytes(name + ".b", n)), True
     if k == "map":
         n = env.choice(name + ".len", maxlen + 1)
         d = {}
@@ -380,6 +439,17 @@ def enc(env, t, v, out, split=False):
     elif k == "fixedvector":
         for e in v:
             enc(env, t[1], e, out, split)
+    elif k in ("fixedarray", "ndarray", "dynarray"):
+        # binary.md: dynamic arrays: number of dimensions, then the dimensions; rank-only arrays: the
+        # dimensions; fixed arrays: nothing; then the elements in row-major order (fixed-width little-endian
+        # element encodings = the memory image for the trivially serializable element types used here)
+        if k == "dynarray":
+            out.append(list(_c_uvarint(len(v.shape))))
+        if k != "fixedarray":
+            for d in v.shape:
+                out.append(list(_c_uvarint(d)))
+        if v.data:
+            out.append(v.data)
     elif k == "map":
         out.append(list(_c_uvarint(len(v))))
         for kk, vv in v.items():
@@ -435,6 +505,10 @@ def veq(env, t, a, b):
         if not isinstance(a, list) or not isinstance(b, list) or len(a) != len(b):
             return False
         return AND(*[veq(env, t[1], x, y) for x, y in zip(a, b)]) if a else True
+    if k in ("fixedarray", "ndarray", "dynarray"):
+        if not hasattr(b, "shape") or tuple(b.shape) != a.shape or str(b.dtype) != ELEM_DTYPE[a.elem]:
+            return False
+        return EQ(a.data, arr_bytes(env, b, len(a.data)))
     if k == "map":
         if not isinstance(a, dict) or len(a) != len(b):
             return False
@@ -469,6 +543,11 @@ def obs_val(env, t, v):
         return [[obs_val(env, t[1], a), obs_val(env, t[2], b)] for a, b in v.items()]
     if k in ("time", "datetime", "date"):
         return str(v)
+    if k in ("fixedarray", "ndarray", "dynarray"):
+        n = ELEM_SIZE[t[1][0]]
+        for d in v.shape:
+            n *= d
+        return [list(v.shape), arr_bytes(env, v, n)]
     if k in ("f32", "f64"):
         return env.fbits(v, 4 if k == "f32" else 8)
     if k in ("c32", "c64"):
@@ -720,6 +799,7 @@ def h_trunc(env, ts, N, mode, maxlen=2):
     payload = [exp.at(i) for i in range(exp.cap)]
     r, src, p, tt, (ok, e) = mk_reader(env, N, payload, total, mode, trail=0, cut=cut)
     sfx = "[short-reads]" if mode == "short" else ""
+    guard_bulk_reads(env, r, src, p + cut, sfx)
 
     def on_exc(e, end):
         name = type(e).__name__
@@ -771,6 +851,58 @@ def h_trunc(env, ts, N, mode, maxlen=2):
 
 
 _END = object()
+
+
+def guard_bulk_reads(env, r, src, available, sfx=""):
+    """Instrument (on this reader instance only, symbolic and native run alike) the two bulk entry
+    points every length-prefixed value goes through: when read_view(count) / read_bytearray(count)
+    returns normally, the `count` bytes starting at the reader's logical position must all have been
+    present in the underlying stream, which holds `available` bytes in total.  The obligation is
+    decided at the moment of the return, i.e. before the caller decodes the returned buffer (whose
+    tail would be padding / stale bytes, not stream data)."""
+    def wrap(name):
+        real = getattr(r, name)
+
+        def guarded(count):
+            pos0 = consumed(r, src)
+            res = real(count)
+            env.check("trunc.bulk-read-returns-only-bytes-present" + sfx, pos0 + count <= available,
+                      "py:trunc:%s:returned-bytes-beyond-end-of-stream" % name,
+                      "%s(count) returned normally although the stream ended before position+count" % name)
+            return res
+        setattr(r, name, guarded)
+    wrap("read_view")
+    wrap("read_bytearray")
+
+
+def h_trunc_bulk(env, N, mode, which):
+    """read_view(count) / read_bytearray(count) with count ranging over 1..2N+2 (so all three code
+    paths: served from the buffer, through _fill_buffer, and the large-read path count > len(buffer)
+    with 0..N bytes carried over from the buffer), on a stream cut after `cut` <= count symbolic payload
+    bytes, reader at an arbitrary buffer offset: the call raises iff cut < count, and a normal return
+    delivers exactly the payload."""
+    sfx = "[short-reads]" if mode == "short" else ""
+    count = 1 + env.choice("count", 2 * N + 2)
+    payload = env.bytes("b", count)
+    cut = env.int("cut", 0, count)
+    r, src, p, tt, (ok, e) = mk_reader(env, N, payload, count, mode, trail=0, cut=cut)
+    if not ok:
+        env.observe("exc", type(e).__name__)
+        env.reach("trunc.outcome-is-an-exception" + sfx)   # the cut already hit the skip of the junk prefix
+        return
+    guard_bulk_reads(env, r, src, p + cut, sfx)
+    ok, rv = env.attempt(getattr(r, which), count)
+    if not ok:
+        env.observe("exc", type(rv).__name__)
+        env.reach("trunc.outcome-is-an-exception" + sfx)
+        if mode != "short":
+            env.check("trunc.no-error-before-the-cut" + sfx, cut < count, "py:trunc:error-although-value-complete", "an error was raised although every byte was present")
+        return
+    env.check("trunc.normal-return-only-if-complete" + sfx, cut >= count, "py:trunc:%s:normal-return-on-truncated-value" % which,
+              "%s(%d) returned normally from a stream holding fewer bytes" % (which, count))
+    got = [env.buf_byte(rv, j) for j in range(count)]
+    env.check("trunc.delivered==written" + sfx, EQ(got, payload), "py:trunc:%s:delivered-value-differs" % which, "bytes returned differ from the stream content")
+    env.observe("bytes", got)
 
 
 class _Prefixed:
@@ -894,6 +1026,49 @@ def h_batch_read(env, t_item, N, mode, nmax):
                 fresh = False
     env.check("batch.items-are-fresh-objects" + sfx, fresh, "py:batch:read:item-object-reused", "two items share one mutable object")
     env.observe("items", obs_val(env, t, rv))
+
+
+def h_item_indep(env, t_item, N, nmax, trail=None):
+    """Item independence: the items of a stream are taken one at a time and *kept* while the later ones
+    are read; after the end of the stream the reader is moved on over N further bytes of symbolic content
+    (so that the whole buffer is refilled / overwritten after the last item too).  Only then are the
+    kept items compared with what was written: an item already returned never changes because of later
+    reads, and shares no memory with the reader's internal buffer."""
+    cache = {}
+    t = ["stream", t_item]
+    ser = mk_ser(env, t, cache)
+    n = nmax     # fewer kept items are the prefixes of this run (each item is also compared when returned)
+    items = []
+    for i in range(n):
+        v, inr = gen(env, t_item, "i%d" % i, 2, cache)
+        env.assume(inr)
+        items.append(v)
+    comps = compositions(n)
+    blocks = comps[env.choice("partition", len(comps))]
+    exp = _blocks_expected(env, t_item, items, blocks, env.data(), True)
+    payload = [exp.at(i) for i in range(exp.cap)]
+    r, src, p, tt, (ok, e) = mk_reader(env, N, payload, exp.length, "full", trail=N if trail is None else trail, trail_exact=True)
+    if not ok:
+        return unexpected(env, "indep.read-no-exception", e)
+    kept = []
+    early = []
+
+    def run():
+        for x in ser.read(r):
+            kept.append(x)
+            early.append(veq(env, t_item, items[len(kept) - 1], x) if len(kept) <= n else False)
+        r.read_view(tt)    # the trailing bytes: forces the buffer on past the last item
+    ok, e = env.attempt(run)
+    if not ok:
+        return unexpected(env, "indep.read-no-exception", e)
+    env.reach("indep.read-no-exception")
+    env.check("indep.item==written-when-returned", AND(len(kept) == n, *early), "py:indep:%s:item-differs-when-returned" % t_item[0],
+              "an item differs from the written one at the moment it is returned")
+    env.check("indep.kept-items-unchanged-by-later-reads", veq(env, t, items, kept), "py:indep:%s:kept-item-changed-by-later-read" % t_item[0],
+              "an item returned earlier no longer equals what was written once later items / bytes have been read")
+    env.check("indep.items-share-no-memory-with-reader-buffer", not shares_reader_buffer(env, kept, r), "py:indep:%s:item-aliases-reader-buffer" % t_item[0],
+              "a returned item is a window onto CodedInputStream._buffer")
+    env.observe("items", obs_val(env, t, kept))
 
 
 # ------------------------------------------------------------------------------------------------
@@ -1233,6 +1408,25 @@ def h_json_kinds(env):
     for k, kind in out.items():
         if k in REP_KIND:
             env.check("conv.kind-table-matches-runtime", kind == REP_KIND[k], "py:ndjson:kind-table:%s" % k, "harness kind table differs from the real converter")
+    # maps, per key primitive: ndjson.md: "Maps where the key is a string are written as a JSON object. Other
+    # maps are written as an array of arrays" - the table the gosym union-tagging check (specKinds) relies on
+    map_kinds = {}
+    for k, rep in reps.items():
+        if k == "time":
+            # yardl_types.Time defines __eq__ without __hash__: a Python dict cannot hold Time keys at all, so every
+            # time-keyed map fails in MapConverter.from_json / MapSerializer.read with TypeError (reported as a
+            # suspected genuine defect of the unchanged tree; excluded here, not a listed known finding)
+            continue
+        conv = env.J.MapConverter(getattr(env.J, CONV_SIMPLE[k]), env.J.int32_converter)
+        ok, j = env.attempt(conv.to_json, {rep: 1})
+        map_kinds[k] = json_kind(j) if ok else "raises " + type(j).__name__
+        env.check("conv.map-kind==object-iff-string-key", map_kinds[k] == ("object" if k == "string" else "array"), "py:ndjson:map-kind:%s-key" % k,
+                  "a map with %s keys is written as JSON %s" % (k, map_kinds[k]))
+        if ok:
+            ok2, back = env.attempt(conv.from_json, json_pass(env, j))
+            env.check("conv.map-kind==object-iff-string-key", ok2 and len(back) == 1 and list(back.values()) == [1], "py:ndjson:map-roundtrip:%s-key" % k,
+                      "a map with %s keys does not come back from its JSON form" % k)
+    env.observe("map_kinds", sorted(map_kinds.items()))
     return out
 
 
